@@ -4,6 +4,29 @@ import "verif/internal/eng"
 
 func init() {
 	register(&Property{
+		ID: "C17",
+		Explanation: "Decides the clauses of chunking that are visible in restic's own code (the splitting itself lives in the library restic/chunker): (reset-before-chunk) in fileSaver.saveFile the first readNextChunk of a file is reached only after chnker.Reset() and chunkState.reset() on the very chunker and state used for reading; reset() zeroes every non-buffer field of the read state; baseChunker.Reset resets the library chunker with the polynomial it was created with, NewChunker takes it from the factory and the factory from the repository config — so boundaries depend on content and repository polynomial only, never on previously processed files; (chunk-reads) readNextChunk reads the file only through io.ReadFull into the fixed buffer (read sizes of the source cannot move boundaries), hands the chunker exactly the unread window readBuf[bpos:bmax], sets bmax to what ReadFull delivered, and advances bpos only to the upper bound of the window it has just appended to the chunk (no byte skipped or taken twice); (content-order) a slot is appended to node.Content before each chunk is handed to SaveBlobAsync, the callback stores the ID into node.Content[pos] with pos a per-iteration copy of the chunk counter, and the counter is incremented on every path to the next chunk. Not decided: minimum/maximum chunk sizes, concatenation equality and shift resistance (properties of the library's rolling hash).",
+		Assumptions: commonAssumptions,
+		Technique:   "static analysis: CFG ordering cuts + field-coverage of the reset + window/advance agreement of the buffer indices (go/ssa, go/types)",
+		Run: func(c *eng.Ctx) {
+			ruleChunkerReset(c)
+			ruleChunkReads(c)
+			ruleContentOrder(c)
+		},
+		Controls: []Control{
+			{Name: "chunker-not-reset-between-files", File: "internal/archiver/file_saver.go",
+				Old: "	chnker.Reset()\n	chunkState.reset()\n", New: "	chunkState.reset()\n", Rule: "reset-before-chunk"},
+			{Name: "eof-flag-survives-reset", File: "internal/archiver/file_saver.go",
+				Old: "	s.bmax = 0\n	s.closed = false\n", New: "	s.bmax = 0\n", Rule: "reset-before-chunk"},
+			{Name: "plain-read-instead-of-readfull", File: "internal/archiver/file_saver.go",
+				Old: "			n, err := io.ReadFull(rd, s.readBuf)", New: "			n, err := rd.Read(s.readBuf)", Rule: "chunk-reads"},
+			{Name: "split-byte-skipped", File: "internal/archiver/file_saver.go",
+				Old: "			s.bpos += uint(split)\n			return data, nil", New: "			s.bpos += uint(split) + 1\n			return data, nil", Rule: "chunk-reads"},
+			{Name: "slot-index-shared-between-callbacks", File: "internal/archiver/file_saver.go",
+				Old: "			node.Content[pos] = newID", New: "			node.Content[idx-1] = newID", Rule: "content-order"},
+		},
+	})
+	register(&Property{
 		ID: "C08",
 		Explanation: "Decides field-by-field agreement and ordering in the index code, not equality of lookups over histories: (index-wire-fields) every field of the on-disk blob record (enumerated from the struct blobJSON; an unknown field is a violation) is written by generatePackList from the in-memory entry field of the same meaning and copied by DecodeIndex into the pack.Blob field of the same name; the pack ID written is idx.packs[e.packIndex] and is registered on decode, each blob being stored under the pack index addToPacks returned; Index.store hands blob.ID/Offset/Length/UncompressedLength to the indexMap.add parameter of the same name, into the table of blob.Type; indexMap.add stores every parameter in the entry field of the same name and toPackedBlob reads them back into the result; (narrowing-guards) Index.store narrows Offset, Length and UncompressedLength to 32 bits only behind the <= MaxUint32 edges, addToPacks returns and merge copies entries only behind len(idx.packs) <= MaxUint32; (index-load-order) MasterIndex.Load merges only after ForAllIndexes succeeded, loads only after prepareIncrementalLoad succeeded, returns MergeFinalIndexes' result; for an index that was not loaded before, decoded without error and accepted by the caller, the callback cannot return without mi.Insert(idx); prepareIncrementalLoad clears the in-memory index when a previously loaded index file has disappeared; (index-locks, master-index-locks: C16) the index structures are only touched under their mutexes. Not decided: that lookups after any history of added/removed index files equal a fresh load, duplicate handling in merge, and JSON encoding of the values.",
 		Assumptions: commonAssumptions,
